@@ -12,6 +12,7 @@
 (*   GrowMissing  Crop.grow_missing(): ascending, stops at the first       *)
 (*                batch whose function raises                              *)
 (*   FixFn        the user repairs the function (failing := {})            *)
+(*   RegressFn    the session returns to the failing function              *)
 (*   Delete(i)    a result file is removed                                 *)
 (*   Corrupt(i)   environment: a result file becomes unreadable            *)
 (*   CheckBad     Crop.check_bad(): removes unreadable results             *)
@@ -189,6 +190,14 @@ FixFn ==
     /\ outcome' = "ok"
     /\ UNCHANGED <<cfg, perm1, dir, B, bsz, rem, sown, batch, infoShuf, res, failing, dfn, kver, sownK, cause, store, extra, value>>
 
+(* the opposite: the session goes back to the failing function (the old script is run again); the workers see it after a
+   re-sow, and a batch that was finished with the good function and is grown again then fails - without losing its result *)
+RegressFn ==
+    /\ dir = "present" /\ Step /\ hfn = 2
+    /\ hfn' = 1
+    /\ outcome' = "ok"
+    /\ UNCHANGED <<cfg, perm1, dir, B, bsz, rem, sown, batch, infoShuf, res, failing, dfn, kver, sownK, cause, store, extra, value>>
+
 (* between two campaigns the user changes the farmer's constants (runner.constants = ...) *)
 ChangeConst ==
     /\ dir = "deleted" /\ Step /\ cfg.farmer # "none" /\ kver = 0
@@ -326,13 +335,14 @@ DoSow == dir \in {"none", "deleted"} /\ (dir = "deleted" => On("campaign2")) /\ 
 DoReSow == On("resow") /\ Do(ReSow, "resow", <<>>)
 DoGrowMissing == On("grow_missing") /\ Do(GrowMissing, "grow_missing", <<>>)
 DoFixFn == On("fix_fn") /\ Do(FixFn, "fix_fn", <<>>)
+DoRegressFn == On("regress_fn") /\ Do(RegressFn, "regress_fn", <<>>)
 DoCheckBad == On("check_bad") /\ Do(CheckBad, "check_bad", <<>>)
 DoReload == On("reload") /\ \E fd \in BOOLEAN : Do(Reload(fd), "reload", <<fd>>)
 DoChangeConst == On("campaign2") /\ Do(ChangeConst, "change_const", <<>>)
 DoDirectHarvest == On("direct_harvest") /\ Do(DirectHarvest, "direct_harvest", <<>>)
 DoFixCause == On("fix_cause") /\ Do(FixCause, "fix_cause", <<cause>>)
 
-Next == \/ DoSow \/ DoReSow \/ GrowAny \/ GrowSetAny \/ DoGrowMissing \/ DoFixFn
+Next == \/ DoSow \/ DoReSow \/ GrowAny \/ GrowSetAny \/ DoGrowMissing \/ DoFixFn \/ DoRegressFn
         \/ DeleteAny \/ CorruptAny \/ DoCheckBad \/ DoReload \/ DoFixCause \/ DoChangeConst \/ DoDirectHarvest
         \/ ReapAny \/ ReapPartialAny \/ ReapDefault
 
